@@ -74,6 +74,49 @@ Theorem C19_hit_never_blocked : forall (hash : N -> N) s i h,
 Proof. exact hit_never_blocked. Qed.
 Print Assumptions C19_hit_never_blocked.
 
+(* Round 2: the two theorems above speak about ONE action (always enabled) and about a thread that already
+   holds its entry.  The next two make the clause "the hit is answered immediately from cache ... no matter how
+   many ..." explicit for the WHOLE hit path and for ANY amount of background work:
+
+   From EVERY state s — reachable or not, hence in particular every reachable one; with any number of refresh
+   threads in p_refs s (0, 64, 65, 10^6, all stalled in RfWait, ...) and any in-flight set — a hit thread about
+   to look up a present entry e runs to "responded with e" by hit_steps (p_now s) e <= 4 actions that are all
+   its own.  The spawn of the refresh is part of the reserve action (one atomic, unguarded step: there is no
+   separate "hand the job to a worker" step that a full worker pool / a bounded errgroup / a channel without
+   buffer could disable).  The run does not touch the clock, the cache, the upstream log or any existing
+   refresh thread, and appends at most one refresh thread.
+
+   What ties "enabled in the model" to "does not block in the implementation" is the kind `prefetchfan` of
+   bin/check C19 (harness/cmd/implrun/c19_fan.go): N distinct (question, group) entries inside their last
+   quarter, upstream stalled, one hit per entry in quick succession and concurrently through the real
+   listeners, N over 1, 2, 63, 64, 65, 128, 300, ...; every hit must be answered from the cache within 1 s
+   while N refreshes are in flight (observed, not proved: an implementation whose spawn can block — e.g.
+   errgroup.Go with SetLimit — is NOT an instance of this LTS, and only that kind can tell). *)
+Theorem C19_hit_enabled_whatever_in_flight : forall (hash : N -> N) s i h e,
+  nth_error (p_hits s) i = Some h -> h_pc h = HLookup -> p_lookup (h_q h) (p_cache s) = Some e ->
+  exists s' h', p_run hash (repeat (PlHit i) (hit_steps (p_now s) e)) s = Some s' /\
+    nth_error (p_hits s') i = Some h' /\ h_pc h' = HDone e /\ h_q h' = h_q h /\ h_tw h' = p_now s /\
+    p_now s' = p_now s /\ p_cache s' = p_cache s /\ p_sent s' = p_sent s /\
+    (forall j r, nth_error (p_refs s) j = Some r -> nth_error (p_refs s') j = Some r) /\
+    (length (p_refs s') <= S (length (p_refs s)))%nat.
+Proof. exact hit_total. Qed.
+Print Assumptions C19_hit_enabled_whatever_in_flight.
+
+(* ... and its response does not depend on them: two states that agree on the clock, the cache and the hit
+   thread, and differ ARBITRARILY in refresh threads, in-flight set and upstream log, give the same number of
+   steps, the same response e and the same window-test instant. *)
+Theorem C19_hit_independent_of_refreshes : forall (hash : N -> N) s1 s2 i h e,
+  p_now s1 = p_now s2 -> p_cache s1 = p_cache s2 ->
+  nth_error (p_hits s1) i = Some h -> nth_error (p_hits s2) i = Some h ->
+  h_pc h = HLookup -> p_lookup (h_q h) (p_cache s1) = Some e ->
+  exists n s1' s2' h1 h2, (n <= 4)%nat /\
+    p_run hash (repeat (PlHit i) n) s1 = Some s1' /\ p_run hash (repeat (PlHit i) n) s2 = Some s2' /\
+    nth_error (p_hits s1') i = Some h1 /\ nth_error (p_hits s2') i = Some h2 /\
+    h_pc h1 = HDone e /\ h_pc h2 = HDone e /\ h_tw h1 = h_tw h2 /\
+    p_cache s1' = p_cache s2' /\ p_now s1' = p_now s2'.
+Proof. exact hit_independent_of_refreshes. Qed.
+Print Assumptions C19_hit_independent_of_refreshes.
+
 (* ------------------------------------------------------------------ window *)
 
 (* exact arithmetic of needPrefetch (ns, integers): with remaining = expire - now, lifetime = expire - stored,
@@ -293,4 +336,19 @@ Example C19_example_collision :
   pfs_atts ex_collision = [Some true; Some false] /\ pfs_inflight ex_collision = [1%N] /\
   pfs_max ex_collision = 1%nat /\
   pfs_answers ex_collision = [Some (mkPentry 0 (4 * s_ns) 7 false); Some (mkPentry 0 (4 * s_ns) 6 false)].
+Proof. vm_compute. repeat split; reflexivity. Qed.
+
+(* 129 different questions inside their last quarter, one hit each (round-robin interleaving), upstream stalled:
+   129 refreshes in flight, one per key; a hit for a 130th key is answered and spawns the 130th; a second hit
+   per key is answered and spawns nothing (the scripted run of kind prefetchfan) *)
+Definition ex_fan_keys (n : nat) : list N := map N.of_nat (seq 1 n).
+Definition ex_fan : psummary := Eval vm_compute in
+  pf_scenario false 0 (map (fun q => PfStore q 7 (120 * s_ns) false) (ex_fan_keys 130) ++
+                       [PfTick (100 * s_ns); PfFan (ex_fan_keys 129); PfSendN 0 129; PfHit 130%N;
+                        PfFan (ex_fan_keys 129)]).
+Example C19_example_fan :
+  pfs_sent ex_fan = ex_fan_keys 129 /\ length (pfs_inflight ex_fan) = 130%nat /\ pfs_max ex_fan = 1%nat /\
+  pfs_answers ex_fan = repeat (Some (mkPentry 0 (120 * s_ns) 7 false)) 259 /\
+  firstn 130 (pfs_atts ex_fan) = repeat (Some true) 130 /\
+  skipn 130 (pfs_atts ex_fan) = repeat (Some false) 129.
 Proof. vm_compute. repeat split; reflexivity. Qed.
